@@ -202,6 +202,21 @@ def run(ctx):
         if r.cls != "error" or r.stdout != b"":
             ctx.violation("entropy-failure-during-search", dict(op="new --vanity-prefix 0xfff", fail_at_request=rn["k"], threads=rn["j"]),
                           "error exit, nothing printed", str(r))
+    # a ONE-SHOT entropy failure inside a worker of a multi-threaded vanity search (all other requests succeed): the first
+    # message on the channel is that error, so the command must fail and print nothing (prefix far too long to be found)
+    one = []
+    for kfail in (1, 2):
+        for j in (1, 2, 16):
+            script = os.path.join(tmp, "oneshot%d_%d" % (kfail, j))
+            open(script, "w").write("00\n" * kfail + "fail\n")
+            one.append(dict(args=["new", "--vanity-prefix", "0xfffffff", "-j", str(j)],
+                            env=dict(LD_PRELOAD=shim, HDW_SHIM_SCRIPT=script, HDW_SHIM_DEFAULT="counter"), timeout=25, k=kfail, j=j))
+    for rn, r in zip(one, ctx.cli(one, timeout=25)):
+        ctx.count("entropy-failure/one-shot-in-worker")
+        ctx.distinct(("oneshot", rn["k"], rn["j"]))
+        if r.cls != "error" or r.stdout != b"":
+            ctx.violation("entropy-failure-in-one-worker", dict(op="new --vanity-prefix 0xfffffff", fail_at_request=rn["k"], threads=rn["j"]),
+                          "error exit, nothing printed", str(r)[:300])
     ctx.exhaustive["all 16 single hex digits in both cases"] = True
     for f in os.listdir(tmp):
         os.remove(os.path.join(tmp, f))
